@@ -44,7 +44,11 @@ use serde::{Deserialize, Serialize};
 use std::env;
 use std::path::{Path, PathBuf};
 use std::str::FromStr;
+#[cfg(not(dmntk_verif))]
 use std::sync::RwLock;
+
+#[cfg(dmntk_verif)]
+use dmntk_verif_sync::RwLock;
 
 const DMNTK_NAME: &str = env!("CARGO_PKG_NAME");
 const DMNTK_VERSION: &str = env!("CARGO_PKG_VERSION");
@@ -545,6 +549,59 @@ fn do_evaluate(workspace: &Workspace, params: &EvaluateParams, input: &str) -> R
     }
   } else {
     Err(err_missing_parameter("model"))
+  }
+}
+
+/// Seams for deterministic simulation, compiled only with `--cfg dmntk_verif`.
+#[cfg(dmntk_verif)]
+pub mod verif {
+  use super::*;
+
+  /// Application data shared between the workers of the simulated service.
+  #[derive(Clone)]
+  pub struct VerifAppData(web::Data<ApplicationData>);
+
+  impl VerifAppData {
+    /// Creates the application data the same way [start_server] does.
+    pub fn new(workspace: Workspace) -> Self {
+      Self(web::Data::new(ApplicationData {
+        workspace: RwLock::new(workspace),
+      }))
+    }
+    /// Registers the same data, configuration and services as [start_server].
+    pub fn configure(&self, cfg: &mut web::ServiceConfig) {
+      cfg
+        .app_data(self.0.clone())
+        .app_data(web::JsonConfig::default().limit(4 * 1024 * 1024).error_handler(|err, _| {
+          error::InternalError::from_response(
+            "",
+            HttpResponse::BadRequest()
+              .content_type("application/json")
+              .body(ResultDto::<String>::error(err_internal_error(&format!("{:?}", err))).to_string()),
+          )
+          .into()
+        }))
+        .service(get_system_info)
+        .service(post_definitions_clear)
+        .service(post_definitions_add)
+        .service(post_definitions_replace)
+        .service(post_definitions_remove)
+        .service(post_definitions_deploy)
+        .service(post_tck_evaluate)
+        .service(post_evaluate);
+    }
+    /// Handler for requests that match no service, the same as in [start_server].
+    pub async fn default_handler() -> std::io::Result<Json<ResultDto<()>>> {
+      not_found().await
+    }
+    /// Returns `true` when the workspace lock is poisoned.
+    pub fn is_poisoned(&self) -> bool {
+      self.0.workspace.read().is_err()
+    }
+    /// Returns the snapshot of the workspace, `None` when the lock is poisoned.
+    pub fn snapshot(&self) -> Option<dmntk_workspace::VerifSnapshot> {
+      self.0.workspace.read().ok().map(|workspace| workspace.verif_snapshot())
+    }
   }
 }
 
